@@ -83,6 +83,8 @@ def solve(
 ) -> Union[Value, CanAssignError]:
     bottom = BOTTOM
     top = TOP
+    # upper bounds that are neither implied by top nor imply it
+    extra_tops: list[Value] = []
     options = None
 
     for bound in bounds:
@@ -106,7 +108,8 @@ def solve(
             elif bound.value.is_assignable(top, ctx):
                 pass
             else:
-                top = unite_values(top, bound.value)
+                # Neither bound implies the other. We have to satisfy both.
+                extra_tops.append(bound.value)
         elif isinstance(bound, OrBound):
             # TODO figure out how to handle this
             continue
@@ -118,25 +121,38 @@ def solve(
     if bottom is BOTTOM:
         if top is TOP:
             solution = AnyValue(AnySource.generic_argument)
+        elif extra_tops:
+            # We cannot express a type that satisfies several unrelated upper bounds.
+            solution = AnyValue(AnySource.inference)
         else:
             solution = top
     elif top is TOP:
         solution = bottom
     else:
-        can_assign = top.can_assign(bottom, ctx)
-        if isinstance(can_assign, CanAssignError):
-            return CanAssignError(
-                "Incompatible bounds on type variable",
-                [
-                    can_assign,
-                    CanAssignError(
-                        children=[CanAssignError(str(bound)) for bound in bounds]
-                    ),
-                ],
-            )
+        for upper in [top, *extra_tops]:
+            can_assign = upper.can_assign(bottom, ctx)
+            if isinstance(can_assign, CanAssignError):
+                return CanAssignError(
+                    "Incompatible bounds on type variable",
+                    [
+                        can_assign,
+                        CanAssignError(
+                            children=[CanAssignError(str(bound)) for bound in bounds]
+                        ),
+                    ],
+                )
         solution = bottom
 
     if options is not None:
+        if top is not TOP:
+            # A constraint can only be chosen if the upper bounds accept it.
+            options = [
+                option
+                for option in options
+                if all(
+                    upper.is_assignable(option, ctx) for upper in [top, *extra_tops]
+                )
+            ]
         can_assigns = [option.can_assign(solution, ctx) for option in options]
         if all_of_type(can_assigns, CanAssignError):
             return CanAssignError(children=list(can_assigns))
